@@ -247,6 +247,8 @@ def run(cx, rep):
 
     # ---------------------------------------------------------------- C05.12
     revocable_memo_rule(F, rep, entries)
+    # ---------------------------------------------------------------- C05.13
+    engine_decides_rule(F, rep, "C05.13")
 
     # ---------------------------------------------------------------- C05.5
     rep.rule("C05.5", "polarity of the path walk in bdd_every_result")
@@ -1088,3 +1090,55 @@ def revocable_memo_rule(F, rep, entries):
             rep.ob("C05.12", "%s/revoker-pops-to-mark" % name, bounded,
                    "the revoker %s does not walk the log back to exactly the length it is handed (compare `log.len()` with the plain mark, or drain / split_off at it)" % g,
                    F.fns[g].loc() if g in F.fns else f.loc(), sample={"revoker": g, "log": log_field})
+
+
+# ---------------------------------------------------------------------------------------------------- C05.13 = C01.20
+def _only_err(F, crate, n, depth=2):
+    """the expression certainly evaluates to an `Err` / diagnostic: `Err(..)`, or a call of a local function all of
+    whose value exits are such expressions"""
+    from hirpath import _callee
+    if n.get("k") == "Call" and (n.get("callee") or "").endswith("::Err"):
+        return True
+    if n.get("k") in ("Call", "MethodCall") and depth > 0:
+        g = _callee(F, crate, n)
+        t = F.hir.get(g)
+        if t is not None:
+            oks = [x for x in walk(t["body"]) if x["k"] == "Call" and (x.get("callee") or "").endswith("::Ok")]
+            errs = [x for x in walk(t["body"]) if x["k"] == "Call" and (x.get("callee") or "").endswith("::Err")]
+            return bool(errs) and not oks
+    return False
+
+
+def engine_decides_rule(F, rep, rid):
+    """`Exclude<A, B>` and `A extends B ? X : Y` are DECISIONS of the semantic engine: the value the compiler returns for
+    them must have passed through the engine's difference / subtype test.  A path that leaves the handling of the
+    operator with a value and without having consulted the engine is a syntactic shortcut that has to re-implement
+    assignability for every pair of kinds (the seeded change C01-l did: it forgot `boolean`, `unknown`, references..).
+    Decided on the typed HIR, path-sensitively (lib/hirpath.py): in the match arm selected by the `Exclude` builtin
+    and in the function that lowers a conditional type, every value exit - `return e` and the tail value, per branch,
+    helpers followed - is preceded by the engine call; `?` error exits and diagnostic constructors are exempt."""
+    from hirpath import unpreceded_exits
+    rep.rule(rid, "Exclude<..> and conditional types are answered by the semantic engine on every path (no syntactic shortcut returns first)")
+    regions = []
+    for g in sorted(F.hir):
+        f = F.fns.get(g)
+        if f is None or f.crate == WASM or not (f.file or "").startswith("packages/beff-core/src/frontend"):
+            continue
+        tree = F.hir[g]
+        for n in walk(tree["body"]):
+            if n["k"] == "Match":
+                for a in n["arms"]:
+                    if any((x.get("def") or "").endswith("TsBuiltIn::Exclude") for x in walk(a["pat"])) and \
+                            not any((x.get("def") or "").endswith(v) for x in walk(a["pat"]) for v in ("TsBuiltIn::Omit", "TsBuiltIn::Pick", "TsBuiltIn::Record")):
+                        regions.append(("Exclude", f, a["body"], "SemTypeOps::diff"))
+        if f.kind != "Closure" and any("TsConditionalType" in (t or "") for t in (f.inputs or [])):
+            regions.append(("conditional type", f, tree["body"], "SemTypeOps::is_subtype"))
+    rep.floor(rid, "operator regions (the Exclude arm, the conditional-type lowering)", len({r[0] for r in regions}), 2)
+    for what, f, region, ev in regions:
+        def is_event(x, ev=ev):
+            return x["k"] == "MethodCall" and ((x.get("callee") or "").endswith(ev) or (x.get("resolved") or "").endswith(ev.rsplit("::", 1)[-1]) and "SemTypeOps" in (x.get("resolved") or x.get("callee") or ""))
+        hits = unpreceded_exits(F, f.crate, region, is_event, lambda e: _only_err(F, f.crate, e))
+        rep.ob(rid, "%s/%s" % (what.replace(" ", "-"), f.id.rsplit("::", 1)[-1]), not hits,
+               "the handling of %s in %s returns a value (line %s) on a path that has not consulted the semantic engine (%s): a syntactic shortcut must re-implement assignability for every pair of kinds, and any kind it does not know is silently treated as `not assignable` / `not removed`" % (
+                   what, f.id, ", ".join(str(h.get("line")) for h in hits[:4]), ev),
+               f.loc(), sample={"operator": what, "fn": f.id, "engine_call": ev, "value_exits_without_engine": len(hits)})
